@@ -39,14 +39,116 @@ def _lit_core(o):
     return None
 
 
+def _const_value(o):
+    """value of a constant expression as the compiler leaves it in unoptimised MIR: `const N_ty`,
+    `Shl(const a, const b)`, `Add/Sub/Mul(c1, c2)` (possibly wrapped in move/copy and parentheses), else None"""
+    o = o.strip()
+    while True:
+        m = re.fullmatch(r"(?:move|copy) (.*)", o)
+        if m:
+            o = m.group(1).strip()
+            continue
+        if o.startswith("(") and o.endswith(")"):
+            d, ok = 0, True
+            for i, ch in enumerate(o):
+                if ch == "(":
+                    d += 1
+                elif ch == ")":
+                    d -= 1
+                    if d == 0 and i != len(o) - 1:
+                        ok = False
+                        break
+            if ok:
+                o = o[1:-1].strip()
+                continue
+        break
+    m = re.fullmatch(r"const (-?\d+)_[iu](?:size|8|16|32|64|128)", o)
+    if m:
+        return int(m.group(1))
+    m = re.fullmatch(r"(Shl|Shr|Add|Sub|Mul)\((.*)\)", o)
+    if m:
+        # split the two operands at the top-level comma
+        d, parts, cur = 0, [], ""
+        for ch in m.group(2):
+            if ch == "(":
+                d += 1
+            elif ch == ")":
+                d -= 1
+            if ch == "," and d == 0:
+                parts.append(cur)
+                cur = ""
+            else:
+                cur += ch
+        parts.append(cur)
+        if len(parts) != 2:
+            return None
+        a, b = _const_value(parts[0]), _const_value(parts[1])
+        if a is None or b is None:
+            return None
+        return {"Shl": a << b, "Shr": a >> b, "Add": a + b, "Sub": a - b, "Mul": a * b}[m.group(1)]
+    return None
+
+
+def _strip_parens(o):
+    o = o.strip()
+    while True:
+        m = re.fullmatch(r"(?:move|copy) (.*)", o)
+        if m:
+            o = m.group(1).strip()
+            continue
+        if o.startswith("(") and o.endswith(")"):
+            d, ok = 0, True
+            for k, ch in enumerate(o):
+                if ch == "(":
+                    d += 1
+                elif ch == ")":
+                    d -= 1
+                    if d == 0 and k != len(o) - 1:
+                        ok = False
+                        break
+            if ok:
+                o = o[1:-1].strip()
+                continue
+        return o
+
+
+def _split2(body):
+    d, parts, cur = 0, [], ""
+    for ch in body:
+        if ch in "(<[":
+            d += 1
+        elif ch in ")>]":
+            d -= 1
+        if ch == "," and d == 0:
+            parts.append(cur)
+            cur = ""
+        else:
+            cur += ch
+    parts.append(cur)
+    return [x.strip() for x in parts]
+
+
 def _cond(f, t, core):
     """branch conditions of a switch on a comparison of the literal with a constant -> [(target, smt or None)]"""
-    o = _norm(mir.origin(f, t["on"]))
-    m = re.match(r"^\(*(Lt|Le|Gt|Ge|Eq|Ne)\((.*), const (-?\d+)_isize\)+$", o)
+    o = _strip_parens(_norm(mir.origin(f, t["on"])))
     rel = None
+    m = re.fullmatch(r"(Lt|Le|Gt|Ge|Eq|Ne)\((.*)\)", o)
     if m and core in m.group(2):
-        c = int(m.group(3)) & ((1 << 64) - 1)
-        rel = "(%s v (_ bv%d 64))" % (OPS[m.group(1)], c)
+        parts = _split2(m.group(2))
+        if len(parts) == 2:
+            op = m.group(1)
+            a, b = parts
+            if core in a and core not in b:
+                cv = _const_value(b)
+            elif core in b and core not in a:
+                cv = _const_value(a)
+                op = {"Lt": "Gt", "Le": "Ge", "Gt": "Lt", "Ge": "Le", "Eq": "Eq", "Ne": "Ne"}[op]
+            else:
+                cv = None
+            if cv is not None:
+                rel = "(%s v (_ bv%d 64))" % (OPS[op], cv & ((1 << 64) - 1))
+            elif "const" in m.group(2):
+                raise ValueError("comparison of the literal with a constant expression that is not understood: %s" % m.group(2)[-100:])
     out = []
     vals = []
     for val, tgt in t["targets"]:
